@@ -493,6 +493,14 @@ selex_read_block(ESL_MSAFILE *afp, ESL_SELEX_BLOCK **block_p)
   b->anchor = afp->lineoffset;
   if ((status = esl_buffer_SetStableAnchor(afp->bf, b->anchor)) != eslOK) goto ERROR;
 
+  /* Setting the stable anchor may have relocated the buffer's memory (stream and file modes
+   * shift the window so the anchor sits at mem[0]); <afp->line>, read before the anchor was
+   * set, would be stale. Re-read the first line of the block from its new location.
+   */
+  if ((status = esl_buffer_SetOffset(afp->bf, b->anchor)) != eslOK) goto ERROR;
+  if (afp->linenumber != -1) afp->linenumber--;
+  if ((status = esl_msafile_GetLine(afp, NULL, NULL))    != eslOK) goto ERROR;
+
   /* Parse for a block of lines. */
   do {
     if (b->nalloc && idx == b->nalloc && (status = selex_block_Grow(b)) != eslOK) goto ERROR;
